@@ -33,12 +33,52 @@ def _norm_index(i, n):
     return z3.If(adj < 0, z3.IntVal(0), z3.If(adj > zn, zn, adj))
 
 
+def _nonneg(v):
+    """syntactic check: the (symbolic) int is certainly >= 0"""
+    if isinstance(v, bool):
+        return True
+    if isinstance(v, int):
+        return v >= 0
+    if isinstance(v, SBool):
+        return True
+    if not isinstance(v, SInt):
+        return False
+    return _nonneg_term(v.e, 6)
+
+
+def _nonneg_term(e, depth):
+    if z3.is_int_value(e):
+        return e.as_long() >= 0
+    if depth <= 0:
+        return False
+    k = e.decl().kind()
+    if k == z3.Z3_OP_SEQ_LENGTH:
+        return True
+    if k == z3.Z3_OP_ADD:
+        return all(_nonneg_term(c, depth - 1) for c in e.children())
+    if k == z3.Z3_OP_ITE:
+        return _nonneg_term(e.arg(1), depth - 1) and _nonneg_term(e.arg(2), depth - 1)
+    if k == z3.Z3_OP_MUL:
+        return all(_nonneg_term(c, depth - 1) for c in e.children())
+    return False
+
+
 def str_getitem(s, i):
     zs = z(s)
     n = z3.Length(zs)
     if isinstance(i, slice):
         if i.step not in (None, 1):
             raise HarnessError('extended slices of symbolic strings are not modelled')
+        # fast paths (SMT-LIB str.substr truncates at the end of the string, like Python slices)
+        if i.stop is None and (i.start is None or _nonneg(i.start)):
+            if i.start is None:
+                return s
+            return mk_str(z3.SubString(zs, z(as_sint(i.start)), n))
+        if i.start is None and _nonneg(i.stop):
+            return mk_str(z3.SubString(zs, z3.IntVal(0), z(as_sint(i.stop))))
+        if i.start is not None and i.stop is not None and _nonneg(i.start) and _nonneg(i.stop):
+            a, b = z(as_sint(i.start)), z(as_sint(i.stop))
+            return mk_str(z3.SubString(zs, a, b - a))
         lo = z3.IntVal(0) if i.start is None else _norm_index(i.start, mk_int(n))
         hi = n if i.stop is None else _norm_index(i.stop, mk_int(n))
         ln = z3.If(hi > lo, hi - lo, z3.IntVal(0))
@@ -130,7 +170,66 @@ def str_rfind(s, sub, *a):
 def str_contains(s, sub):
     if not is_strlike(sub):
         raise TypeError("'in <string>' requires string as left operand")
+    if isinstance(sub, str) and len(sub) == 1 and isinstance(s, SStr):
+        parts = atoms(s.e)
+        if all(_free_of(a, sub) for a in parts):
+            return False
     return mk_bool(z3.Contains(z(s), z(sub)))
+
+
+def atoms(e):
+    """flatten a z3 string term into the list of its concatenated parts"""
+    out = []
+    todo = [e]
+    while todo:
+        x = todo.pop()
+        if z3.is_app(x) and x.decl().kind() == z3.Z3_OP_SEQ_CONCAT:
+            todo.extend(reversed(x.children()))
+        else:
+            out.append(x)
+    return out
+
+
+def _free_of(atom, ch):
+    """is the string atom certainly free of the character ch? (literals, and input variables
+    declared with `exclude`)"""
+    if z3.is_string_value(atom):
+        return ch not in core._zstr_to_py(atom)
+    if z3.is_const(atom) and atom.decl().kind() == z3.Z3_OP_UNINTERPRETED:
+        return ch in engine().char_free.get(atom.decl().name(), ())
+    return False
+
+
+def structural_split(s, sep):
+    """split a concatenation of literals and separator-free variables at a one-character literal
+    separator, syntactically (exact: no solver involved).  None when the structure is not known."""
+    if not isinstance(sep, str) or len(sep) != 1 or not isinstance(s, SStr):
+        return None
+    parts = atoms(s.e)
+    pieces, cur = [], []
+    for a in parts:
+        if z3.is_string_value(a):
+            lit = core._zstr_to_py(a).split(sep)
+            for k, seg in enumerate(lit):
+                if k > 0:
+                    pieces.append(cur)
+                    cur = []
+                if seg:
+                    cur.append(z3.StringVal(seg))
+        elif _free_of(a, sep):
+            cur.append(a)
+        else:
+            return None
+    pieces.append(cur)
+    out = []
+    for cur in pieces:
+        if not cur:
+            out.append('')
+        elif len(cur) == 1:
+            out.append(mk_str(cur[0]))
+        else:
+            out.append(mk_str(z3.Concat(*cur)))
+    return out
 
 
 def str_split(s, sep=None, maxsplit=-1, _max=None):
@@ -142,6 +241,10 @@ def str_split(s, sep=None, maxsplit=-1, _max=None):
         raise HarnessError('symbolic maxsplit')
     if not isinstance(s, SStr) and not isinstance(sep, SStr):
         return s.split(sep, maxsplit)
+    if maxsplit == -1:
+        st = structural_split(s, sep)
+        if st is not None:
+            return st
     eng = engine()
     zs, zsep = z(s), z(sep)
     if isinstance(sep, SStr):
@@ -548,3 +651,221 @@ class SymSet:
 
     def __repr__(self):
         return 'SymSet(%r)' % (self._items,)
+
+
+# ----------------------------------------------------------------------------- POSIX path model
+
+class SymPath:
+    """component-list model of an absolute or relative pathlib.PurePosixPath whose components may be
+    symbolic strings.  Invariant (assumed where paths are created): components are non-empty,
+    contain no '/', and are not '.'.   A path never equals a str (as in CPython)."""
+    _pysym_holder = True
+    _pysym_path = True
+
+    def __init__(self, parts=(), absolute=True, raw=None):
+        self.parts_ = list(parts)
+        self.absolute = absolute
+        self.raw = raw          # string-backed path (result of Path(<symbolic str>)): text only
+
+    # -- rendering
+    def __str__(self):
+        raise HarnessError('str() of a symbolic path in native code')
+
+    def to_str(self):
+        if self.raw is not None:
+            return self.raw
+        if not self.parts_:
+            return '/' if self.absolute else '.'
+        s = str_join('/', self.parts_)
+        return ('/' + s) if self.absolute else s
+
+    def __fspath__(self):
+        raise HarnessError('symbolic path handed to the operating system')
+
+    def __repr__(self):
+        return 'SymPath(%r, absolute=%r)' % (self.parts_, self.absolute)
+
+    # -- components
+    @property
+    def name(self):
+        if self.raw is not None:
+            raise HarnessError('components of a string-backed symbolic path are not modelled')
+        return self.parts_[-1] if self.parts_ else ''
+
+    @property
+    def parts(self):
+        return tuple((['/'] if self.absolute else []) + self.parts_)
+
+    def _split_name(self):
+        """(stem, suffix) of the last component, by a definitional split  name == stem ++ suffix
+        (fresh variables constrained to pathlib's rule: the suffix starts at the last dot i of the
+        name when 0 < i < len(name)-1, and is empty otherwise)"""
+        sp = getattr(self, '_split', None)
+        if sp is not None:
+            return sp
+        name = self.name
+        sp = None
+        if isinstance(name, SStr):
+            # structural case: the name ends in a literal ".ext" (one dot, at its start)
+            parts = atoms(name.e)
+            last = parts[-1]
+            if len(parts) > 1 and z3.is_string_value(last):
+                lit = core._zstr_to_py(last)
+                j = lit.rfind('.')
+                head = mk_str(z3.Concat(*parts[:-1]) if len(parts) > 2 else parts[0])
+                if len(lit) >= 2 and j == 0:
+                    if bool(mk_bool(z3.Length(z(head)) >= 1)):
+                        sp = (head, lit)
+                    else:
+                        sp = (name, '')
+                elif j > 0 and j < len(lit) - 1:
+                    sp = (head + lit[:j], lit[j:])
+        if sp is not None:
+            pass
+        elif not isinstance(name, SStr):
+            i = name.rfind('.')
+            sp = (name[:i], name[i:]) if 0 < i < len(name) - 1 else (name, '')
+        else:
+            eng = engine()
+            stem, suf = eng.new_str('_stem'), eng.new_str('_suffix')
+            free = None
+            for a in atoms(name.e):
+                if z3.is_string_value(a):
+                    continue
+                f = set(eng.char_free.get(a.decl().name(), ())) if z3.is_const(a) else set()
+                free = f if free is None else (free & f)
+            for a in atoms(name.e):
+                if z3.is_string_value(a) and free:
+                    free = set(c for c in free if c not in core._zstr_to_py(a))
+            if free:
+                eng.char_free[stem.e.decl().name()] = set(free)
+                eng.char_free[suf.e.decl().name()] = set(free)
+            nm, st, su = name.e, stem.e, suf.e
+            n = z3.Length(nm)
+            dot = z3.StringVal('.')
+            no_suffix = z3.And(
+                su == z3.StringVal(''),
+                z3.Or(z3.Not(z3.Contains(nm, dot)), z3.SuffixOf(dot, nm),
+                      z3.And(z3.PrefixOf(dot, nm),
+                             z3.Not(z3.Contains(z3.SubString(nm, z3.IntVal(1), n - 1), dot)))))
+            has_suffix = z3.And(
+                z3.PrefixOf(dot, su), z3.Length(su) >= 2, z3.Length(st) >= 1,
+                z3.Not(z3.Contains(z3.SubString(su, z3.IntVal(1), z3.Length(su) - 1), dot)))
+            eng.add(z3.And(nm == z3.Concat(st, su), z3.Or(no_suffix, has_suffix)))
+            sp = (stem, suf)
+        self._split = sp
+        return sp
+
+    @property
+    def suffix(self):
+        return self._split_name()[1]
+
+    @property
+    def stem(self):
+        return self._split_name()[0]
+
+    @property
+    def parent(self):
+        if not self.parts_:
+            return self
+        return SymPath(self.parts_[:-1], self.absolute)
+
+    @property
+    def parents(self):
+        out = []
+        p = self
+        while p.parts_:
+            p = p.parent
+            out.append(p)
+        return tuple(out)
+
+    def with_name(self, name):
+        if not self.parts_:
+            raise ValueError('%r has an empty name' % (self,))
+        bad = name == '' if not isinstance(name, SStr) else mk_bool(z3.Length(name.e) == 0)
+        bad2 = sym_eq(name, '.')
+        bad3 = str_contains(name, '/') if isinstance(name, SStr) else ('/' in name)
+        for b in (bad, bad2, bad3):
+            if b is True or (b is not False and bool(b)):
+                raise ValueError('Invalid name %r' % (name,))
+        return SymPath(self.parts_[:-1] + [name], self.absolute)
+
+    def joinpath(self, *others):
+        p = self
+        for o in others:
+            p = p / o
+        return p
+
+    def __truediv__(self, o):
+        if isinstance(o, SymPath):
+            if o.absolute:
+                return o
+            return SymPath(self.parts_ + o.parts_, self.absolute)
+        if isinstance(o, SStr):
+            # a single relative component (assumed by the obligations that use it)
+            return SymPath(self.parts_ + [o], self.absolute)
+        if isinstance(o, str):
+            if o.startswith('/'):
+                return SymPath([c for c in o.split('/') if c and c != '.'], True)
+            return SymPath(self.parts_ + [c for c in o.split('/') if c and c != '.'], self.absolute)
+        return NotImplemented
+
+    def is_absolute(self):
+        return self.absolute
+
+    def absolute_(self):
+        return self
+
+    def relative_to(self, other):
+        if not isinstance(other, SymPath):
+            other = to_sympath(other)
+        n = len(other.parts_)
+        if self.absolute != other.absolute or n > len(self.parts_):
+            raise ValueError('%r is not in the subpath of %r' % (self, other))
+        for a, b in zip(self.parts_, other.parts_):
+            r = sym_eq(a, b)
+            if r is False or (r is not True and not bool(r)):
+                raise ValueError('%r is not in the subpath of %r' % (self, other))
+        return SymPath(self.parts_[n:], False)
+
+    def is_relative_to(self, other):
+        try:
+            self.relative_to(other)
+            return True
+        except ValueError:
+            return False
+
+    def __eq__(self, o):
+        if isinstance(o, SymPath):
+            if self.raw is not None or o.raw is not None:
+                return sym_eq(self.to_str(), o.to_str())
+            if self.absolute != o.absolute or len(self.parts_) != len(o.parts_):
+                return False
+            return sym_eq(tuple(self.parts_), tuple(o.parts_))
+        if hasattr(o, 'parts') and hasattr(o, 'is_absolute') and not isinstance(o, str):
+            return self.__eq__(to_sympath(o))
+        return False
+
+    def __ne__(self, o):
+        return sym_not(self.__eq__(o))
+
+    def __hash__(self):
+        raise HarnessError('symbolic path hashed')
+
+    def __lt__(self, o):
+        if not isinstance(o, SymPath):
+            o = to_sympath(o)
+        return sym_lt(tuple(self.parts), tuple(o.parts))
+
+
+def to_sympath(p):
+    if isinstance(p, SymPath):
+        return p
+    import pathlib
+    if isinstance(p, pathlib.PurePath):
+        parts = list(p.parts)
+        absolute = p.is_absolute()
+        if absolute:
+            parts = parts[1:]
+        return SymPath(parts, absolute)
+    raise HarnessError('cannot convert %r to a path model' % (p,))
